@@ -1,5 +1,6 @@
 import GqlVerif.Props.C05
 import GqlVerif.Proofs.C05Body
+import GqlVerif.Proofs.ComposedC05
 open GqlVerif.C05
 #print axioms module_shape
 #print axioms module_constants
@@ -18,3 +19,13 @@ open GqlVerif.C05
 #print axioms GqlVerif.C05Body.named_operation_is_written
 #print axioms GqlVerif.C05Body.request_body_of_generate
 #print axioms GqlVerif.C05Body.clash_witness
+-- operation selection on Codegen.generate, in terms of the struct name (Proofs/ComposedC05.lean)
+#print axioms GqlVerif.Composed.selectOperation_none_iff
+#print axioms GqlVerif.Composed.generatedModule_fields
+#print axioms GqlVerif.Composed.cli_unmatched_name_generates_all_eq
+#print axioms GqlVerif.Composed.cli_unmatched_name_generates_all
+#print axioms GqlVerif.Composed.derive_unmatched_is_error
+#print axioms GqlVerif.Composed.cli_unmatched_witness
+#print axioms GqlVerif.Composed.derive_uses_struct_ident
+#print axioms GqlVerif.Composed.derive_struct_no_fallback
+#print axioms GqlVerif.Composed.derive_struct_selects_first
